@@ -2,7 +2,7 @@
    nat, positive, N, Z stay as extracted inductives; no Extract Constant /
    Extract Inductive directives of our own. *)
 Require Import Coq.extraction.Extraction Coq.extraction.ExtrOcamlBasic.
-From Gdsl.Model Require Import Base NodeOps Search Callback Container Scc Serde Macro Own Conc ConcClass EdgeCmp PathApi.
+From Gdsl.Model Require Import Base NodeOps Search SearchFind Callback Container Scc Serde Macro Own Conc ConcClass EdgeCmp PathApi.
 Extraction Language OCaml.
 Set Extraction KeepSingleton.
 Extraction "model.ml"
@@ -12,11 +12,11 @@ Extraction "model.ml"
   NodeOps.is_connected_d NodeOps.is_connected_u
   NodeOps.out_degree NodeOps.in_degree NodeOps.degree_u
   NodeOps.is_root NodeOps.is_leaf NodeOps.is_orphan NodeOps.adj_u
-  Search.search_find Search.search_path Search.order_nodes Search.order_edges Search.edge_loop
+  SearchFind.search_find' Search.search_path Search.order_nodes Search.order_edges Search.edge_loop
   Search.node_eqb Search.node_cmp Search.path_nodes Search.heap_push Search.heap_pop
   Callback.mk_cb Callback.cb0
   Container.g_get Container.g_contains Container.g_insert Container.g_remove Container.g_len Container.g_is_empty
-  Container.g_iter Container.g_roots Container.g_leaves Container.g_orphans Container.g_to_dot Container.g_to_dot_attr
+  Container.order_okb Container.g_iter Container.g_roots Container.g_leaves Container.g_orphans Container.g_to_dot Container.g_to_dot_attr
   Macro.macro_build
   PathApi.p_len PathApi.p_first_edge PathApi.p_last_edge PathApi.p_first_node PathApi.p_last_node PathApi.p_index PathApi.p_to_vec_edges PathApi.p_iter_nodes
   ConcClass.known_class
